@@ -383,3 +383,20 @@ Proof.
     destruct (c_run g st1 r) as [st2 bs]. destruct IH as (ss' & Hf & Hr' & Hwf' & Hall).
     exists ss'. cbn [combine fold_left forallb]. rewrite Hret. cbn [andb]. auto.
 Qed.
+
+Example nonvacuous :
+  let g := mkPen (mkCol (-1) (mkRgb 255 255 255) true true) (mkCol (-1) (mkRgb 255 255 255) true true)
+                 (mkB true true) (mkI (-1) true) (mkB true true) (mkB true true) (mkB true true)
+                 (mkI (-1) true) (mkB true true) (mkI 3 true) in
+  let p := set_int (set_bool (set_rgb (set_colour (pen_new g) FG 1) FG (mkRgb 255 21 21)) BOLD true) ALTFONT 15 in
+  let q := set_colour (set_bool (pen_new g) BOLD false) FG 7 in
+  wf g /\ wf p /\
+  lookup p FG = Some (VCol 1 (Some (mkRgb 255 21 21))) /\ lookup p BG = None /\
+  lookup (copy q p false) FG = Some (VCol 7 None) /\
+  lookup (copy q p true) FG = Some (VCol 1 (Some (mkRgb 255 21 21))) /\
+  lookup (copy q p true) BOLD = Some (VBool true) /\
+  equiv (clone p g) p = true /\ equiv p q = false /\
+  set_desc (pen_new g) FG [114;101;100;32;35;70;70;49;53;49;53]
+    = (true, set_rgb (set_colour (pen_new g) FG 1) FG (mkRgb 255 21 21)) /\
+  fst (set_desc p FG [98]) = false.
+Proof. vm_compute. repeat split; reflexivity. Qed.
